@@ -124,6 +124,50 @@ def _site_kind(fi, node):
     return "legacy"
 
 
+def rsl_range(ctx, R):
+    """the peer's record_size_limit is range-checked before any limit is taken from it: the union of
+    the effective abort gates on it must abort exactly the out-of-range values (RFC 8449 section 4)."""
+    E, S = "size_limit_ext.record_size_limit", "settings.record_size_limit"
+    from .common import dead_edge_labels as _dead
+    from ..query import mentions
+    ranges = [("_serverGetClientHello", lambda v: v < 64, "below 64 (larger values are clamped)"),
+              ("_clientGetServerHello", lambda v: v < 64 or v > 2 ** 14, "outside 64..2**14"),
+              ("_clientTLS13Handshake", lambda v: v < 64 or v > 2 ** 14 + 1, "outside 64..2**14+1")]
+    dom = [0, 1, 63, 64, 65, 1000, 2 ** 14 - 1, 2 ** 14, 2 ** 14 + 1, 2 ** 14 + 2, 70000]
+    for fname, spec, words in ranges:
+        fi = ctx.index.func(TLSCONN + fname)
+        g = ctx.an.cfg(fi)
+        sinks = [n for n in g.nodes if n.kind == "stmt" and isinstance(n.ast, ast.Assign)
+                 and (attr_chain(n.ast.targets[0]) or "") in ("self._send_record_limit", "self._peer_record_size_limit")
+                 and mentions(n.ast.value, E) or (n.kind == "stmt" and isinstance(n.ast, ast.Assign)
+                 and isinstance(n.ast.targets[0], ast.Name) and mentions(n.ast.value, E))]
+        if not sinks:
+            raise AnalysisError("C01.RSL: no limit taken from the peer's record_size_limit in " + fname)
+        aborts = {v: False for v in dom}
+        gates = []
+        for t in g.nodes:
+            if t.kind != "test" or t.expr is None or not mentions(t.expr, E):
+                continue
+            dl = _dead(g, t, sinks)
+            if not dl:
+                continue
+            try:
+                vals = {v: bool(ev(t.expr, {E: v, S: 2 ** 14, "settings.record_size_limit is None": False})) for v in dom}
+            except (Unknown, TypeError):
+                continue
+            gates.append(t)
+            for v in dom:
+                if ("T" in dl and vals[v]) or ("F" in dl and not vals[v]):
+                    aborts[v] = True
+        wrong = [v for v in dom if aborts[v] != spec(v)]
+        ctx.check(R, not wrong, fi.qname, "peer's record_size_limit refused when " + words,
+                  "the peer's record_size_limit must be refused exactly when it is %s before a limit is derived from "
+                  "it; the effective checks on it (%s) %s the value %s" % (
+                      words, "; ".join("`%s`" % norm(t.expr) for t in gates) or "none",
+                      "accept" if wrong and spec(wrong[0]) else "refuse", wrong[0] if wrong else ""),
+                  fi.loc(sinks[0].ast), what="%s range" % fi.short)
+
+
 def rule_rsl(ctx):
     R = "C01.RSL"
     sites = 0
@@ -177,6 +221,7 @@ def rule_rsl(ctx):
                           why, tgt, norm(n.value), bad[1] if bad else "", bad[0] if bad else "", bad[2] if bad else ""),
                       fi.loc(n), what="%s %s %s" % (fi.short, tgt, kind))
     ctx.require(sites >= 7, "C01.RSL: %d record size limit assignments found, floor 7" % sites)
+    rsl_range(ctx, R)
     rs = ctx.index.func("recordlayer:RecordSocket.recv")
     g = ctx.an.cfg(rs)
     body = [n for n in consumes_of(g, "_sockRecvAll") if "record.length" in norm(n.call)]
